@@ -256,6 +256,9 @@ func (c *checker) one(prog *vroute.Program, lg *leg, opts vroute.PacketOpts, tra
 		c.mu.Lock()
 		if _, dup := c.textSeen[k]; dup {
 			c.dupText++
+			if c.dupText <= 3 {
+				fmt.Fprintf(os.Stderr, "C01: duplicate program (leg %s, %s): %s\n", lg.name, prog.Label, prog.OneLine())
+			}
 		}
 		c.textSeen[k] = struct{}{}
 		c.mu.Unlock()
